@@ -300,7 +300,7 @@ func (c connectUnaryServerProtocol) extractProtocolResponseHeaders(statusCode in
 		}
 		endUnmarshaller = func(_ Codec, buf *bytes.Buffer, end *responseEnd) {
 			var wireErr connectWireError
-			if contentType != contentTypeJSON || json.Unmarshal(buf.Bytes(), &wireErr) != nil {
+			if contentType != contentTypeJSON || json.Unmarshal(buf.Bytes(), &wireErr) != nil || wireErr.Code == 0 {
 				// Not a Connect error: infer the RPC code from the HTTP status.
 				code := httpStatusCodeToRPC(statusCode)
 				end.err = connect.NewError(code, fmt.Errorf("unexpected HTTP error: %d %s", statusCode, http.StatusText(statusCode)))
@@ -579,6 +579,10 @@ func (c connectStreamServerProtocol) decodeEndFromMessage(_ *operation, buffer *
 	}
 	var cerr *connect.Error
 	if streamEnd.Error != nil {
+		if streamEnd.Error.Code == 0 {
+			// An error without a (non-OK) code is still an error.
+			streamEnd.Error.Code = connect.CodeUnknown
+		}
 		cerr = streamEnd.Error.toConnectError()
 	}
 	return responseEnd{
